@@ -125,8 +125,12 @@ class GULP_PairTabulation(PairTabulation_AbstractBase):
 
     :param fp: File object into which data should be written."""
     
+    # Build the whole table before anything reaches fp: a failing evaluation must not leave a partial file.
+    from io import StringIO
+    workout = StringIO()
     for pot in self.potentials:
-      self._write_pot(pot, fp)
+      self._write_pot(pot, workout)
+    fp.write(workout.getvalue())
 
   def _write_pot(self, pot, fp):
     header_template = u"{speciesA} {speciesB} {cutoff}\n"
